@@ -11,6 +11,7 @@
 import Pymodbus.Lemmas.Txn
 import Pymodbus.Lemmas.TxnFrames
 import Pymodbus.Spec.TxnSpec
+import Pymodbus.Generated.Tables
 namespace Pymodbus.Props.C13
 open Pymodbus Txn Framer
 
@@ -375,5 +376,18 @@ example : Fits .tcp none (tcpFrame 1 0 9 3 [2, 0, 5]) ∧
     9, some 5, by decide, by decide, by intro l e _ h; cases h⟩
 /-- a call that fails (silence) closes the connection -/
 example : (execute cexCfg {} { script := [silent] } cexReq).result = .errorObject := by decide
+
+
+/-- tie to the source: the per-framing constants of the transaction manager read from /repo on this run — base ADU
+    size and exception ADU length (introspected on a stub client per framer) and the minimum first read of `_recv`
+    (literals in the method body, read by ast) — are the model's, and `Defaults.ReadSize` is the 1024 of
+    `expectedLen` -/
+theorem generated_txn_sizes :
+    Generated.txnSizes = [("tcp", Txn.baseAdu .tcp, Txn.excLen .tcp, Txn.minSize .tcp),
+      ("rtu", Txn.baseAdu .rtu, Txn.excLen .rtu, Txn.minSize .rtu),
+      ("ascii", Txn.baseAdu .ascii, Txn.excLen .ascii, Txn.minSize .ascii),
+      ("binary", Txn.baseAdu .binary, Txn.excLen .binary, Txn.minSize .binary)] ∧
+    Generated.defaultReadSize = 1024 := by
+  constructor <;> rfl
 
 end Pymodbus.Props.C13
